@@ -246,7 +246,7 @@ def _d2(chk, fb):
     stores = [n for n in f.calls() if n["callee"]["name"] == "setValue"]
     pushes = [n for n in f.calls() if n["callee"]["name"] == "push_back" and "obj" in n]
     flags = [n for n in walk(f.body) if n["k"] in ("CompoundAssignOperator", "BinaryOperator") and n["op"] in ("|=", "=") and strip(kids(n)[0])["k"] == "DeclRefExpr"
-             and strip(kids(n)[0])["decl"]["ty"] == "bool"]
+             and strip(kids(n)[0])["decl"]["ty"] in ("bool", "const bool")]
     chk.floor("D2", "store/flag/position sites", min(len(stores), len(pushes), len(flags)), 1)
     if not (stores and pushes and flags):
         return
